@@ -60,15 +60,31 @@ def coq_files() -> list[str]:
 
 
 class CoqLock:
+    """Cross-process lock on the Coq tree (flock), re-entrant within a process: a check holds it from the moment its
+    translators rewrite Gen/*.v until its proofs are built, so that a concurrent check run against another copy of the
+    repository (VERIF_REPO) cannot swap the generated files in between."""
+    _rl = threading.RLock()
+    _depth = 0
+    _f = None
+
     def __enter__(self):
-        COQ.mkdir(exist_ok=True)
-        self.f = open(COQ / '.lock', 'w')
-        fcntl.flock(self.f, fcntl.LOCK_EX)
+        cls = CoqLock
+        cls._rl.acquire()
+        if cls._depth == 0:
+            COQ.mkdir(exist_ok=True)
+            cls._f = open(COQ / '.lock', 'w')
+            fcntl.flock(cls._f, fcntl.LOCK_EX)
+        cls._depth += 1
         return self
 
     def __exit__(self, *a):
-        fcntl.flock(self.f, fcntl.LOCK_UN)
-        self.f.close()
+        cls = CoqLock
+        cls._depth -= 1
+        if cls._depth == 0:
+            fcntl.flock(cls._f, fcntl.LOCK_UN)
+            cls._f.close()
+            cls._f = None
+        cls._rl.release()
 
 
 def ensure_makefile() -> None:
